@@ -108,7 +108,10 @@ func (w *World) Env(cfg Config) []string {
 
 // Client builds an engine client for "garble <cfg.Flags> <command> <cfg.BuildFlags> <args>".
 func (w *World) Client(tag, dir string, cfg Config, command string, args ...string) *engine.Client {
-	a := append([]string{}, cfg.Flags...)
+	a := []string{}
+	for _, f := range cfg.Flags {
+		a = append(a, strings.ReplaceAll(f, "$OUT", w.Out))
+	}
 	a = append(a, command)
 	a = append(a, cfg.BuildFlags...)
 	a = append(a, args...)
